@@ -1,9 +1,328 @@
 /-
-  QEModel.C10 — executable model for property C10 (stub; to be filled in).
+  QEModel.C10 — simulated Markov-chain paths and inverse-CDF draws.
+  Mirrors (code as it is after the `fix:` commits b48648a, cb99317):
+    quantecon/util/array.py        searchsorted (54-62), searchsorted_cdf (90-95)
+    quantecon/markov/core.py       cdfs (417-424), cdfs1d (426-437),
+                                   simulate_indices (469-520), simulate (554-564, get_index),
+                                   _generate_sample_paths (596-603),
+                                   _generate_sample_paths_sparse (641-651), mc_sample_path (704-715)
+    quantecon/_discrete_rv.py      DiscreteRV.__init__/draw
+    quantecon/random/utilities.py  draw
+  Everything is generic in the scalar: only `<` (decidable), `==` and `+` are used,
+  so the same definitions run at `Float` (bit-for-bit with NumPy/Numba) and `Rat`.
+  Random numbers are *inputs* of the model (the uniforms the generator produced).
 -/
 import QEModel.Base
 namespace QE.C10
 
-def handle (_toks : List String) : String := "bad-op"
+variable {α : Type}
+
+/-! ### searchsorted (util/array.py 54-62) -/
+
+/-- The `while lo < hi-1` loop with `lo1 = lo + 1` (so that `lo = -1` is `lo1 = 0`).
+    `m = (lo + hi) // 2 = (lo1 + hi - 1) / 2`; `lo1 ≤ m < hi`, so `a[m]` is always in
+    range when `hi ≤ len a`; the `none` branch is unreachable then (`ssLoop_read_in_range`). -/
+def ssLoop [LT α] [DecidableLT α] (a : List α) (v : α) (lo1 hi : Nat) : Nat :=
+  if _h : lo1 < hi then
+    let m := (lo1 + hi - 1) / 2
+    match a[m]? with
+    | some x => if v < x then ssLoop a v lo1 m else ssLoop a v (m + 1) hi
+    | none => hi
+  else hi
+termination_by hi - lo1
+decreasing_by all_goals omega
+
+/-- `searchsorted(a, v)` : `lo = -1; hi = len(a)` -/
+def searchsorted [LT α] [DecidableLT α] (a : List α) (v : α) : Nat := ssLoop a v 0 a.length
+
+/-! ### searchsorted_cdf (util/array.py 90-95) -/
+
+/-- `while i > 0 and cdf[i-1] == cdf[i]: i -= 1`, started at `i`. -/
+def backoff [BEq α] (cdf : List α) : Nat → Nat
+  | 0 => 0
+  | i + 1 => if cdf[i]? == cdf[i + 1]? then backoff cdf i else i + 1
+
+/-- `searchsorted_cdf(cdf, v)` for a nonempty `cdf` (for `[]` Python returns `-1`, see
+    `searchsortedCdfPy`; every theorem about this function assumes `cdf ≠ []`). -/
+def searchsortedCdf [LT α] [DecidableLT α] [BEq α] (cdf : List α) (v : α) : Nat :=
+  let i := searchsorted cdf v
+  if i = cdf.length then backoff cdf (cdf.length - 1) else i
+
+/-- the Python return value including the degenerate empty array -/
+def searchsortedCdfPy [LT α] [DecidableLT α] [BEq α] (cdf : List α) (v : α) : Int :=
+  if cdf.isEmpty then -1 else (searchsortedCdf cdf v : Nat)
+
+/-! ### cumulative sums (np.cumsum along a row: sequential left-to-right) -/
+
+def cumsumFrom [Add α] (acc : α) : List α → List α
+  | [] => []
+  | x :: xs => (acc + x) :: cumsumFrom (acc + x) xs
+
+/-- `np.cumsum(p)` : `out[0] = p[0]`, `out[i] = out[i-1] + p[i]` -/
+def cumsum [Add α] : List α → List α
+  | [] => []
+  | x :: xs => x :: cumsumFrom x xs
+
+/-- `MarkovChain.cdfs` : row-wise cumsum -/
+def cdfsDense [Add α] (P : List (List α)) : List (List α) := P.map cumsum
+
+/-- Python slice `x[lo:hi]` for nonnegative bounds -/
+def slice (x : List α) (lo hi : Nat) : List α := (x.drop lo).take (hi - lo)
+
+/-- `MarkovChain.cdfs1d`: `cdfs1d[indptr[i]:indptr[i+1]] = data[indptr[i]:indptr[i+1]].cumsum()`
+    for `i < n`. For a canonical CSR structure (`indptr[0] = 0`, nondecreasing,
+    `indptr[n] = nnz`; guaranteed by `scipy.sparse.csr_matrix`) the assignments tile the
+    whole array, i.e. the result is the concatenation of the per-row cumsums. -/
+def cdfs1d [Add α] (data : List α) (indptr : List Nat) (n : Nat) : List α :=
+  (List.range n).flatMap fun i => cumsum (slice data (indptr.getD i 0) (indptr.getD (i + 1) 0))
+
+/-! ### path kernels (markov/core.py 596-603, 641-651) -/
+
+/-- `out[0] = init; out[t+1] = step(out[t], u[t])`; `none` if a step reads outside its arrays -/
+def pathFrom (step : Nat → α → Option Nat) : Nat → List α → Option (List Nat)
+  | s, [] => some [s]
+  | s, u :: us =>
+    match step s u with
+    | none => none
+    | some s' =>
+      match pathFrom step s' us with
+      | none => none
+      | some rest => some (s :: rest)
+
+/-- `searchsorted_cdf(P_cdfs[s], u)` -/
+def denseStep [LT α] [DecidableLT α] [BEq α] (cdfs : List (List α)) (s : Nat) (u : α) : Option Nat :=
+  match cdfs[s]? with
+  | none => none
+  | some row => if row.isEmpty then none else some (searchsortedCdf row u)
+
+def pathDense [LT α] [DecidableLT α] [BEq α] (cdfs : List (List α)) (init : Nat) (us : List α) :
+    Option (List Nat) :=
+  pathFrom (denseStep cdfs) init us
+
+/-- `k = searchsorted_cdf(cdfs1d[indptr[s]:indptr[s+1]], u); indices[indptr[s]+k]` -/
+def sparseStep [LT α] [DecidableLT α] [BEq α] (c1d : List α) (indices indptr : List Nat)
+    (s : Nat) (u : α) : Option Nat :=
+  match indptr[s]?, indptr[s + 1]? with
+  | some lo, some hi =>
+    let row := slice c1d lo hi
+    if row.isEmpty then none else indices[lo + searchsortedCdf row u]?
+  | _, _ => none
+
+def pathSparse [LT α] [DecidableLT α] [BEq α] (c1d : List α) (indices indptr : List Nat)
+    (init : Nat) (us : List α) : Option (List Nat) :=
+  pathFrom (sparseStep c1d indices indptr) init us
+
+/-! ### initial states and output shape (markov/core.py 469-502) -/
+
+inductive Init
+  | none
+  | scalar (i : Int)
+  | arr (l : List Int)
+deriving Repr
+
+/-- `dim` = ndim of the returned array, `states` = `init_states` (length `k`) -/
+structure InitRes where
+  dim : Nat
+  states : List Nat
+deriving Repr, BEq
+
+inductive Err | valueError | indexError
+deriving Repr, BEq, DecidableEq
+
+def inRange (n : Nat) (i : Int) : Bool := decide (-(n : Int) ≤ i) && decide (i < (n : Int))
+
+/-- `np.tile(l, r)` -/
+def tile {β : Type} (l : List β) : Nat → List β
+  | 0 => []
+  | r + 1 => l ++ tile l r
+
+/-- `drawn` is what `rng_integers(random_state, n, size=k)` returned (used only for `init=None`);
+    `randint(0, size=k)` raises `ValueError` unless `k = 0`. -/
+def initStates (n : Nat) (init : Init) (numReps : Option Nat) (drawn : List Nat) : Except Err InitRes :=
+  match init with
+  | .arr l =>
+    if l.all (inRange n) then
+      let st := l.map fun i => (i % (n : Int)).toNat
+      match numReps with
+      | Option.none => .ok ⟨2, st⟩
+      | some r => .ok ⟨2, tile st r⟩
+    else .error .valueError
+  | .none =>
+    let (dim, k) := match numReps with
+      | Option.none => (1, 1)
+      | some r => (2, r)
+    if n = 0 ∧ k ≠ 0 then .error .valueError else .ok ⟨dim, drawn.take k⟩
+  | .scalar i =>
+    let (dim, k) := match numReps with
+      | Option.none => (1, 1)
+      | some r => (2, r)
+    if inRange n i then .ok ⟨dim, List.replicate k (i % (n : Int)).toNat⟩ else .error .valueError
+
+/-- `MarkovChain.get_index` with `state_values=None`: only `0 ≤ value < n` is accepted -/
+def getIndex (n : Nat) (init : Init) : Except Err Init :=
+  let ok (i : Int) : Bool := decide (0 ≤ i) && decide (i < (n : Int))
+  match init with
+  | .none => .ok .none
+  | .scalar i => if ok i then .ok (.scalar i) else .error .valueError
+  | .arr l => if l.all ok then .ok (.arr l) else .error .valueError
+
+structure SimRes where
+  dim : Nat
+  paths : List (List Nat)
+deriving Repr, BEq
+
+/-- all rows of `paths`, or `none` -/
+def allPaths (f : Nat → List α → Option (List Nat)) : List Nat → List (List α) → Option (List (List Nat))
+  | [], _ => some []
+  | s :: ss, us :: uss =>
+    match f s us, allPaths f ss uss with
+    | some p, some ps => some (p :: ps)
+    | _, _ => none
+  | _ :: _, [] => none
+
+/-- `simulate_indices` after `init_states` has been computed: `us` is the `(k, ts_length-1)`
+    array `random_state.random(size=(k, ts_length-1))`, row `i` drives path `i`.
+    `none` = the model was asked something outside its domain (wrong number of uniform rows,
+    read outside the arrays). -/
+def simulateWith (f : Nat → List α → Option (List Nat)) (ir : InitRes) (us : List (List α)) :
+    Option SimRes :=
+  if ir.states.length ≠ us.length then none else
+  match allPaths f ir.states us with
+  | none => none
+  | some ps => some ⟨ir.dim, ps⟩
+
+/-! ### DiscreteRV.draw, random.draw -/
+
+/-- `a.searchsorted(v, side='right')` on a sorted array: number of leading entries `≤ v` -/
+def npSearchRight [LT α] [DecidableLT α] (a : List α) (v : α) : Nat :=
+  (a.takeWhile fun y => !decide (v < y)).length
+
+/-- `a.searchsorted(v, side='left')` on a sorted array: number of leading entries `< v` -/
+def npSearchLeft [LT α] [DecidableLT α] (a : List α) (v : α) : Nat :=
+  (a.takeWhile fun y => decide (y < v)).length
+
+/-- `DiscreteRV(q).draw` with uniforms `us`; `none` = `IndexError` (`Q[-1]` of an empty `Q`). -/
+def drvDraw [Add α] [LT α] [DecidableLT α] (q us : List α) : Option (List Nat) :=
+  let Q := cumsum q
+  match Q.getLast? with
+  | none => none
+  | some last =>
+    some (us.map fun u =>
+      let i := npSearchRight Q u
+      if i = Q.length then npSearchLeft Q last else i)
+
+/-- `quantecon.random.draw(cdf, size)` with uniforms `us` -/
+def draw [LT α] [DecidableLT α] [BEq α] (cdf us : List α) : List Int :=
+  us.map (searchsortedCdfPy cdf)
+
+/-! ### line protocol -/
+
+open QE
+
+def parseInit? (s : String) : Option Init :=
+  if s = "none" then some .none
+  else match s.splitOn ":" with
+    | ["s", v] => (parseInt? v).map .scalar
+    | ["a", v] => (parseList? parseInt? v).map .arr
+    | _ => Option.none
+
+def parseReps? (s : String) : Option (Option Nat) :=
+  if s = "none" then some Option.none else (parseNat? s).map some
+
+def showErr : Err → String
+  | .valueError => "ERR:ValueError"
+  | .indexError => "ERR:IndexError"
+
+def showSim : Option SimRes → String
+  | none => "model-out-of-domain"
+  | some r => "dim=" ++ toString r.dim ++ "|X=" ++ showMat toString r.paths
+
+/-- the scalar-specific part of the protocol -/
+structure Sc (α : Type) where
+  list : List String → String → Option (List α)
+  mat : List String → String → Option (List (List α))
+  one : String → Option α
+  shw : α → String
+
+def scFloat : Sc Float := ⟨kvFloats, kvFloatMat, parseFloat?, showFloatBits⟩
+def scRat : Sc Rat := ⟨kvRats, kvRatMat, parseRat?, showRat⟩
+
+def simArgs (r : List String) : Option (Init × Option Nat × List Nat × Bool) :=
+  match (kv r "init").bind parseInit?, (kv r "reps").bind parseReps?, kvNats r "drawn", kv r "via" with
+  | some i, some reps, some d, some via =>
+    if via = "indices" then some (i, reps, d, false)
+    else if via = "simulate" then some (i, reps, d, true) else none
+  | _, _, _, _ => none
+
+def runSim (n : Nat) (f : Nat → List α → Option (List Nat)) (a : Init × Option Nat × List Nat × Bool)
+    (us : List (List α)) : String :=
+  let (init, reps, drawn, viaSim) := a
+  let init' : Except Err Init := if viaSim then getIndex n init else .ok init
+  match init' with
+  | .error e => showErr e
+  | .ok i =>
+    match initStates n i reps drawn with
+    | .error e => showErr e
+    | .ok ir => showSim (simulateWith f ir us)
+
+def handleSc [Add α] [LT α] [DecidableLT α] [BEq α] (sc : Sc α) (toks : List String) : String :=
+  match toks with
+  | "ss" :: r =>
+    match sc.list r "a", (kv r "v").bind sc.one with
+    | some a, some v => toString (searchsorted a v)
+    | _, _ => "bad-op"
+  | "sscdf" :: r =>
+    match sc.list r "a", (kv r "v").bind sc.one with
+    | some a, some v => toString (searchsortedCdfPy a v)
+    | _, _ => "bad-op"
+  | "cumsum" :: r =>
+    match sc.list r "a" with
+    | some a => showList sc.shw (cumsum a)
+    | _ => "bad-op"
+  | "dense" :: r =>
+    match sc.mat r "P", simArgs r, sc.mat r "u" with
+    | some P, some a, some us =>
+      let c := cdfsDense P
+      "cdfs=" ++ showMat sc.shw c ++ "|" ++ runSim P.length (pathDense c) a us
+    | _, _, _ => "bad-op"
+  | "sparse" :: r =>
+    match sc.list r "data", kvNats r "indices", kvNats r "indptr", kvNat r "n", simArgs r, sc.mat r "u" with
+    | some data, some indices, some indptr, some n, some a, some us =>
+      let c := cdfs1d data indptr n
+      "cdfs1d=" ++ showList sc.shw c ++ "|" ++ runSim n (pathSparse c indices indptr) a us
+    | _, _, _, _, _, _ => "bad-op"
+  | "drv" :: r =>
+    match sc.list r "q", sc.list r "u" with
+    | some q, some us =>
+      match drvDraw q us with
+      | none => "ERR:IndexError"
+      | some idx => "Q=" ++ showList sc.shw (cumsum q) ++ "|" ++ showList toString idx
+    | _, _ => "bad-op"
+  | "draw" :: r =>
+    match sc.list r "cdf", sc.list r "u" with
+    | some cdf, some us => showList toString (draw cdf us)
+    | _, _ => "bad-op"
+  | "mcsp" :: r =>
+    -- mc_sample_path: X_0 = init (scalar) or searchsorted_cdf(cumsum(init), u_0) (distribution),
+    -- then MarkovChain(P).simulate(ts_length, init=X_0) with the uniforms `u` (one row)
+    match sc.mat r "P", sc.mat r "u" with
+    | some P, some us =>
+      let x0? : Option Int :=
+        match kvInt r "x0", sc.list r "dist", (kv r "u0").bind sc.one with
+        | some i, _, _ => some i
+        | none, some d, some u0 => some (searchsortedCdfPy (cumsum d) u0)
+        | _, _, _ => none
+      match x0? with
+      | some x0 =>
+        runSim P.length (pathDense (cdfsDense P)) (Init.scalar x0, Option.none, [], true) us
+      | none => "bad-op"
+    | _, _ => "bad-op"
+  | _ => "bad-op"
+
+def handle (toks : List String) : String :=
+  match kv toks "sc" with
+  | some "float" => handleSc scFloat toks
+  | some "rat" => handleSc scRat toks
+  | _ => "bad-op"
 
 end QE.C10
